@@ -121,7 +121,7 @@ ApplyGraph(n, s) ==
     [] n = "GRAPH.NODE*SETSTATE" -> IF G = <<>> \/ ~Has(s, "int", 1) THEN Unfired(s)
                                     ELSE IF ~Has(s, "int", 2) THEN Unfired(PopN(s, "int", 1))
                                     ELSE LET s2 == PopN(s, "int", 2) IN
-                                         IF s.int[2] > 0 THEN Fired(SetTop(s2, SetState(G[1], s.int[2], s.int[1])))
+                                         IF s.int[2] > 0 /\ HasNode(G[1], s.int[2]) THEN Fired(SetTop(s2, SetState(G[1], s.int[2], s.int[1])))
                                          ELSE Unfired(s2)
     [] n = "GRAPH.NODE*GETSTATE" -> IF G = <<>> \/ ~Has(s, "int", 1) THEN Unfired(s)
                                     ELSE LET s1 == PopN(s, "int", 1) IN
@@ -166,11 +166,14 @@ ApplyGraph(n, s) ==
     [] n = "GRAPH.EDGE*ADD" -> IF G = <<>> \/ ~Has(s, "float", 1) THEN Unfired(s)
                                ELSE LET s1 == PopN(s, "float", 1) IN
                                     IF ~Has(s, "int", 2) THEN Unfired(s1)
-                                    ELSE Fired(SetTop(PopN(s1, "int", 2), AddEdge(G[1], s.int[2], s.int[1], s.float[1])))
+                                    ELSE LET g2 == AddEdge(G[1], s.int[2], s.int[1], s.float[1]) IN
+                                         \* the guard (both nodes exist, no such edge yet) failed: operands consumed only
+                                         Res(SetTop(PopN(s1, "int", 2), g2), g2 # G[1], <<>>)
     [] n = "GRAPH.EDGE*SETWEIGHT" -> IF G = <<>> \/ ~Has(s, "float", 1) THEN Unfired(s)
                                      ELSE LET s1 == PopN(s, "float", 1) IN
                                           IF ~Has(s, "int", 2) THEN Unfired(s1)
-                                          ELSE Fired(SetTop(PopN(s1, "int", 2), SetWeight(G[1], s.int[2], s.int[1], s.float[1])))
+                                          ELSE Res(SetTop(PopN(s1, "int", 2), SetWeight(G[1], s.int[2], s.int[1], s.float[1])),
+                                                   HasEdge(G[1], s.int[2], s.int[1]), <<>>)
     [] n = "GRAPH.EDGE*GETWEIGHT" -> IF G = <<>> \/ ~Has(s, "int", 2) THEN Unfired(s)
                                      ELSE LET s1 == PopN(s, "int", 2) IN
                                           IF HasEdge(G[1], s.int[2], s.int[1])
